@@ -78,7 +78,8 @@ def floors(tier):
                          "frechet.compare": 60000,
                          "oracle.dp_vs_enumeration": 90000},
             "classes": {"tie_lu_lt_ul": 100, "tie_lu_lt_ul_on_path": 100, "tie_any_predecessors": 1000,
-                        "size_1": 100, "sizes_differ": 1000, "dim1": 100, "dim3": 100, "real_valued": 100},
+                        "size_1": 100, "sizes_differ": 1000, "dim1": 100, "dim3": 100, "real_valued": 100,
+                        "rematch_history": 10000},
             "counters": {"dtw_frames_captured": 1000},
             "distinct_nontrivial": 20000}
 
@@ -400,6 +401,27 @@ def run_case(case, ctx):
         if not _close(float(c), optf):
             return fail({"what": label + " is not the discrete Frechet distance", "got": float(c),
                          "expected": optf}, "inf")
+    # --- call history: the first track of a matching is itself the output of an earlier matching (it already
+    # carries the link features), matched now against a track of another size
+    prev = M.call(C.match, ta, tb, C.MODE_MATCHING_DTW, 2, dim, False)
+    if not M.is_raised(prev):
+        b2 = [tuple(q) for q in reversed(b)] + [tuple(a[0])]
+        if case.get("idx", 0) % 3 == 0:
+            b2 = b2[:max(1, len(b2) - 2)]
+        tb2 = gen.make_track(b2)
+        B2 = list(zip(tb2.getX(), tb2.getY(), tb2.getZ()))
+        A2 = list(zip(prev.getX(), prev.getY(), prev.getZ()))
+        if A2 == A:
+            D2 = [[_dist(A2[i], B2[j], dim) for j in range(len(B2))] for i in range(n1)]
+            p2 = PS[case.get("idx", 0) % len(PS)]
+            mode2 = C.MODE_MATCHING_DTW if case.get("idx", 0) % 2 == 0 else C.MODE_MATCHING_FDTW
+            r2 = M.call(C.match, prev, tb2, mode2, _pval(p2), dim, False)
+            w, _ = _check_matching("match on a first track that was already matched before", r2, D2, p2,
+                                   dp_optimum(D2, p2), ctx, n1, len(B2))
+            cls.add("rematch_history")
+            if w:
+                w["track2_of_second_matching"] = [list(q) for q in b2]
+                return fail(w, p2)
     return held(sig, nontrivial, sorted(cls))
 
 
